@@ -242,11 +242,23 @@ func (eq *externalBaseQueue) Worker() Worker {
 }
 
 func (eq *externalBaseQueue) Purge() {
-	prevValues := eq.q.Values()
-	eq.q.Purge()
+	// adapter-backed queues hold serialized jobs: nothing to close on our side
+	if _, ok := eq.q.(IAcknowledgeable); ok {
+		eq.q.Purge()
+		return
+	}
 
-	// close all pending channels to avoid routine leaks
-	for _, val := range prevValues {
+	// Take the jobs out one by one and close each of them. Snapshotting Values() and
+	// then purging dropped every job enqueued between the two calls without closing
+	// it: it never ran and its waiters were never released.
+	for {
+		val, ok := eq.q.Dequeue()
+
+		if !ok {
+			return
+		}
+
+		// close all pending channels to avoid routine leaks
 		if j, ok := val.(io.Closer); ok {
 			j.Close()
 		}
